@@ -14,7 +14,7 @@ func init() {
 		Explanation: "Alias/effect analysis over the SSA of the five DefaultFormatter functions and internal.Bprintf: " +
 			"the returned slice must derive from the buf parameter by append-only operations (append, strconv.Append*, bytes.NewBuffer+Write*/Fprintf+Bytes); " +
 			"every element store, copy or in-repo callee that writes must go through a slice proven to start at len(buf) (suffix-only); " +
-			"no read of the caller's existing elements may influence the output (C16.indep); no second append chain may be started in the caller's spare capacity (buf[len(buf):]) while buf itself is appended to; ID.URN formats onto a literal equal to URNPrefix with flag 0 (C16.urn). " +
+			"no read of the caller's existing elements may influence the output (C16.indep); no slice that may alias the caller's buffer is stored into a package-level variable (retention across calls); no second append chain may be started in the caller's spare capacity (buf[len(buf):]) while buf itself is appended to; ID.URN formats onto a literal equal to URNPrefix with flag 0 (C16.urn). " +
 			"A violation names the storing instruction and the call chain.",
 		NotDecided:  []string{"nothing value-level: this is a shape property; stdlib append/Buffer semantics are trusted summaries"},
 		Assumptions: []string{"bytes.Buffer is append-only over the slice it was created from and Bytes() returns that whole slice", "append/strconv.Append* never modify existing elements"},
